@@ -68,6 +68,15 @@ def make_scenarios(rng, tier, focus, count):
             g["deps"][b - 1] = [d] + [x for x in g["deps"][b - 1] if x != d]
             rest = [x for x in g["deps"][a - 1] if x not in (b, d)]
             g["deps"][a - 1] = ([b, d] if rng.random() < 0.5 else [d, b]) + rest
+        if focus == "slots" and rng.random() < 0.3:
+            # a sequential and a parallelizable task become ready together while another parallel task is still running
+            n = 5
+            kk = lambda: rng.choice(["exp", "cmd"])
+            g = {"n": 5, "target": 5, "deps": [[], [], rng.sample([1], 1), [1], rng.sample([2, 3, 4], 3)],
+                 "kind": [kk(), kk(), kk(), kk(), rng.choice(["group", "cmd"])], "par": [True, True, False, True, False],
+                 "cachedTs": [0] * 5, "stale": [False] * 5, "again": False, "atLeast": False, "now": 1000, "lastTs0": 0}
+            if rng.random() < 0.5:
+                g["par"][2], g["par"][3] = True, False
         jobs = rng.choice([1, 2, 2, 3] if focus != "slots" else [1, 2, 3, 3, 4])
         stop = (rng.random() < 0.5) if focus == "fail" else (rng.random() < 0.15)
         codes, fl = {}, []
@@ -182,6 +191,29 @@ def run_family(prop, clauses, tier, focus, count_quick, count_thorough, sig_fn=N
             rep.violation(sig, scns[i], "deps=%s kind=%s par=%s jobs=%s stop=%s: %s" % (
                 t["cfg"]["deps"], t["cfg"]["kind"], t["cfg"]["par"], t["cfg"]["jobs"], t["cfg"]["stop"], bad),
                 extra={"trace": t})
+    # implementation-shaped validation: the recorded traces must be behaviours of Executor.tla itself (drift otherwise)
+    xt = []
+    for i, (s_, r_) in enumerate(zip(scns, results)):
+        if len(xt) >= (80 if tier == "quick" else 2500):
+            break
+        if r_ is None or "_error" in r_ or "_timeout" in r_:
+            continue
+        t_ = R.to_exec_trace(i, s_, r_)
+        if t_ is not None:
+            xt.append(t_)
+    consumed = 0
+    if xt:
+        xo, xres = R.validate_exec(xt)
+        for t_ in xt:
+            reached, n_ = xo[t_["id"]]
+            if reached == n_:
+                consumed += 1
+            elif not verdicts.get(t_["id"]):
+                nxt = t_["events"][reached] if reached < len(t_["events"]) else None
+                rep.drift.append("trace %d (deps=%s kind=%s jobs=%s) is not a behaviour of Executor.tla: %d/%d events consumed, "
+                                 "next event %s" % (t_["id"], t_["g"]["deps"], t_["g"]["kind"], t_["jobs"], reached, n_, nxt))
+    rep.cov["traces_accepted_by_Executor_tla"] = consumed
+    rep.cov["traces_offered_to_Executor_tla"] = len(xt)
     model_bad = sorted(set(mc.violated) | ({"<deadlock>"} if mc.deadlock else set()))
     relevant_model = [x for x in model_bad if x in (prop, "<deadlock>", "<temporal>")]
     if relevant_model and not real_hit:
